@@ -75,6 +75,10 @@ type rerunner struct {
 	hardAt      int
 	childErrAt  map[int]bool
 	lastStart   uint64
+	// deadlines registered with InvalidateAfter by the invocation in progress
+	// and by the last successful one (simulated time)
+	curAfter  []time.Duration
+	lastAfter []time.Duration
 }
 
 type world struct {
@@ -158,7 +162,17 @@ func (w *world) exec(ctx context.Context, r *rerunner, plan []item, inv int, dep
 		case itAfter:
 			w.triggers++
 			w.c.Probe("invalidate-after")
-			reactive.InvalidateAfter(ctx, it.dur)
+			d := it.dur
+			if d < time.Second && inv > 2 {
+				// zero, negative and tiny durations only in the first invocations:
+				// every one of them causes the next re-run by itself
+				d = 20 * time.Second
+			}
+			if d < time.Second {
+				w.c.Probe("invalidate-after-short")
+			}
+			r.curAfter = append(r.curAfter, simrt.Now()+d)
+			reactive.InvalidateAfter(ctx, d)
 		case itPurge:
 			w.c.Probe("purge-cache")
 			reactive.PurgeCache(ctx)
@@ -171,6 +185,7 @@ func (w *world) compute(r *rerunner) reactive.ComputeFunc {
 	return func(ctx context.Context) (interface{}, error) {
 		r.invocations++
 		inv := r.invocations
+		r.curAfter = nil
 		r.inRun++
 		r.lastStart = simrt.Seq()
 		simrt.Logf("run start rr=%d inv=%d", r.j, inv)
@@ -215,6 +230,7 @@ func (w *world) compute(r *rerunner) reactive.ComputeFunc {
 			return nil, errors.New("hard failure")
 		}
 		r.lastOut = out
+		r.lastAfter = r.curAfter
 		r.successes++
 		simrt.Logf("run end rr=%d inv=%d ok out=%v", r.j, inv, out)
 		w.signal(3)
@@ -241,7 +257,7 @@ func (w *world) genPlan(c *runner.Ctx, nSlots int, minKey int, r *rerunner) []it
 			}
 			plan = append(plan, item{kind: itCache, key: key})
 		case k == 8:
-			plan = append(plan, item{kind: itAfter, dur: []time.Duration{2 * time.Second, 20 * time.Second, 90 * time.Second}[c.Choose(3, "after-dur")]})
+			plan = append(plan, item{kind: itAfter, dur: []time.Duration{2 * time.Second, 20 * time.Second, 90 * time.Second, 0, -time.Second, time.Millisecond}[c.Choose(6, "after-dur")]})
 		default:
 			plan = append(plan, item{kind: itPurge})
 		}
@@ -481,6 +497,15 @@ func (w *world) checkFresh(c *runner.Ctx) {
 		if r.successes == 0 {
 			c.ViolateFor("C04", "never-ran", "rerunner %d has no successful run at quiescence (invocations=%d)", r.j, r.invocations)
 			continue
+		}
+		for _, dl := range r.lastAfter {
+			// an InvalidateAfter deadline of the current computation has passed long
+			// ago (more than min-interval + delay + the capped retry back-off): the
+			// timer's invalidation was lost
+			if simrt.Now()-dl > 90*time.Second {
+				c.ViolateFor("C04,C08", "expired-invalidate-after-not-rerun", "rerunner %d: its last successful run (invocation count %d) registered an InvalidateAfter deadline at t=%v, it is now t=%v and the computation was not re-run", r.j, r.invocations, dl, simrt.Now())
+				break
+			}
 		}
 		for _, o := range r.lastOut {
 			if o.ver != w.ver[o.slot] {
